@@ -66,12 +66,35 @@ class NoTruth:
         raise RuntimeError('the return value of an observer was truth-tested')
 
 
+def show(calls):
+    return [(j, ('unprintable', el.k) if isinstance(el, Unprintable) else el) for j, el in calls]
+
+
+class Unprintable:
+    def __init__(self, k):
+        self.k = k
+
+    def __repr__(self):
+        raise RuntimeError('repr() of a stream element was called')
+
+    __str__ = __repr__
+
+    def __eq__(self, other):
+        return isinstance(other, Unprintable) and other.k == self.k
+
+    def __hash__(self):
+        return hash(('unprintable', self.k))
+
+
 class Src:
-    def __init__(self, n, fail=False):
+    def __init__(self, n, fail=False, rewind=False):
         self.n, self.i, self.fail = n, 0, fail
-        self.items = [('el', k) for k in range(n)]
+        self.rewind = rewind           # a tutorial-style iterator whose __iter__ starts over: `for x in it` calls it exactly once
+        self.items = [(('el', k) if k % 4 != 2 else Unprintable(k)) for k in range(n)]      # some elements cannot be printed
 
     def __iter__(self):
+        if self.rewind:
+            self.i = 0
         return self
 
     def __next__(self):
@@ -146,7 +169,7 @@ def observe_cases(ctx):
                 continue
             got, hist, status = drive(stream, src, k, close)
             case = dict(helper='observe', n=n, nfuncs=nf, interval=iv, interval_type=type(iv_raw).__name__, k=k, close=close, source_fails=fail)
-            want_calls = [(j, ('el', i)) for i in range(min(k, n)) if i % iv == 0 for j in range(nf)]
+            want_calls = [(j, src.items[i]) for i in range(min(k, n)) if i % iv == 0 for j in range(nf)]
             lines.append('strm.observe %d %d %d %s | %s' % (nf, iv, n, 'e1' if fail else '-', ' '.join(['N'] * k + (['C'] if close else []))))
             nontriv = iv >= 2 and n > iv
         else:
@@ -172,7 +195,7 @@ def observe_cases(ctx):
             for i in range(min(k, n)):
                 if readings[i] - tlast > iv_ns:
                     tlast = readings[i]
-                    want_calls += [(j, ('el', i)) for j in range(nf)]
+                    want_calls += [(j, src.items[i]) for j in range(nf)]
             lines.append('strm.otime %d %d %d %s | %s | %s' % (nf, iv_ns, n, 'e1' if fail else '-', ' '.join(map(str, readings[:max(n, 1)])),
                                                           ' '.join(['N'] * k + (['C'] if close else []))))
             nontriv = any(a == b for a, b in zip(readings, readings[1:n])) and n >= 3
@@ -189,7 +212,7 @@ def observe_cases(ctx):
             ctx.fail('observe-draws-ahead:' + case['helper'], 'draw counter / hand-overs %s' % hist[:8], case)
             continue
         if log != want_calls:
-            ctx.fail('observer-calls-wrong:' + case['helper'], 'observer calls %s, expected %s' % (log[:8], want_calls[:8]), case)
+            ctx.fail('observer-calls-wrong:' + case['helper'], 'observer calls %s, expected %s' % (show(log[:8]), show(want_calls[:8])), case)
             continue
         want_status = 'open'
         if k > n:
@@ -199,7 +222,7 @@ def observe_cases(ctx):
         if status != want_status:
             ctx.fail('observe-end-state:' + case['helper'], 'stream ended as %s, expected %s' % (status, want_status), case)
             continue
-        metas.append((case, len(got), src.i, [(j, el[1]) for j, el in log], len(lines) - 1, k + (1 if close else 0)))
+        metas.append((case, len(got), src.i, [(j, el.k if isinstance(el, Unprintable) else el[1]) for j, el in log], len(lines) - 1, k + (1 if close else 0)))
     mout_all = core.run_driver(lines)
     # each line yields one output line per demand
     pos = 0
@@ -227,16 +250,17 @@ def simplecache_cases(ctx):
         L = rng.choice([1, 2, 3, 4, 6])
         k = rng.randint(0, n + 2)
         fail = rng.random() < 0.2
-        src = Src(n, fail)
+        src = Src(n, fail, rewind=rng.random() < 0.4)
         stream = S.simplecache(src, L)
         got, hist, status = drive(stream, src, k, False)
         case = dict(helper='simplecache', n=n, length=L, k=k, source_fails=fail)
         ctx.case(('simplecache', n, L, k, fail), L >= 2 and n > L, sample=case if n <= 4 else None)
         ctx.count('helper:simplecache')
         nwin = max(0, n - L + 1)
-        want = [[('el', i) for i in range(j, j + L)] for j in range(min(k, nwin))]
-        if got != want:
-            ctx.fail('simplecache-window-wrong', 'windows %s, expected %s' % ([[e[1] for e in w] for w in got][:5], [[e[1] for e in w] for w in want][:5]), case)
+        want = [[src.items[i] for i in range(j, j + L)] for j in range(min(k, nwin))]
+        idx = lambda e: e.k if isinstance(e, Unprintable) else e[1]      # noqa
+        if len(got) != len(want) or any(len(a) != len(b) or any(x is not y for x, y in zip(a, b)) for a, b in zip(got, want)):
+            ctx.fail('simplecache-window-wrong', 'windows %s, expected %s' % ([[idx(e) for e in w] for w in got][:5], [[idx(e) for e in w] for w in want][:5]), case)
             continue
         if any(a is b for i, a in enumerate(got) for b in got[i + 1:]) or any(not isinstance(w, list) for w in got):
             ctx.fail('simplecache-list-not-fresh', 'the same list object was handed out twice', case)
@@ -245,7 +269,7 @@ def simplecache_cases(ctx):
             ctx.fail('simplecache-draws-ahead', 'draw counter at the hand-overs: %s (window length %d)' % ([d for d, y in hist[:len(got)]], L), case)
             continue
         lines.append('strm.scache 1 %d %d %s | %s' % (L, n, 'e1' if fail else '-', ' '.join(['N'] * k)))
-        metas.append((case, [[e[1] for e in w] for w in got], src.i, status, k))
+        metas.append((case, [[idx(e) for e in w] for w in got], src.i, status, k))
     # non-iterators are rejected
     for bad in ([1, 2, 3], range(5), 'abc', (1,), {'a': 1}, None, 7):
         case = dict(helper='simplecache', non_iterator=type(bad).__name__)
